@@ -70,6 +70,12 @@ def map_char(eng, c, name):
             raise Unsupported("case mapping changes length")
         return ord(r)
     mp, multi = case_map(name)
+    if isinstance(c, SymInt):
+        # a character statically known to be ASCII: one if-then-else term, no fork
+        lo, hi = eng.ibounds(c.t)
+        if lo is not None and hi is not None and lo >= 0 and hi < 128:
+            a, b, d = (65, 90, 32) if name == "lower" else (97, 122, -32)
+            return eng.define_var("case", z3.If(z3.And(c.t >= a, c.t <= b), c.t + d, c.t), min(lo, lo + d), max(hi, hi + d))
     # ASCII fast path
     if name == "lower":
         if eng.truth(eng.and_(eng.cmp("GtE", c, 65), eng.cmp("LtE", c, 90))):
@@ -447,6 +453,9 @@ def float_method(eng, v, n, args, kw):
     if n == "is_integer":
         if v.ival is not None:
             return True
+        if v.t is None:
+            x = eng.real_of(v)
+            return mkbool(x == z3.ToReal(eng.real_floor(x)))
         t = eng.to_fp(v)
         return mkbool(z3.And(z3.Not(z3.fpIsNaN(t)), z3.Not(z3.fpIsInf(t)), z3.fpEQ(z3.fpRoundToIntegral(z3.RTZ(), t), t)))
     raise Unsupported("float method " + n)
